@@ -142,6 +142,9 @@ pub fn check_size(c: &SizeCase, st: &mut Stats) -> Result<(), String> {
     if rebuilt != page {
         return Err(format!("from_bytes({w},{h}, p.as_bytes()) != p for a new page"));
     }
+    if crate::engine::h64(&rebuilt) != crate::engine::h64(&page) {
+        return Err(format!("a {w}x{h} page and the page rebuilt from its bytes are equal but hash differently"));
+    }
     // copies: clone() and clone_from() into destinations that held a longer page, a shorter page, a same-size page and
     // a borrowed page before - the copy has the source's bytes (header, data, padding, length) whatever was there
     {
@@ -429,6 +432,45 @@ pub fn run(ctx: &Ctx) {
         Ok(())
     });
     ctx.part_done("extreme-dimensions", true, json!("widths/heights within 10 of u32::MAX (zero-width or zero-height pages are 16 bytes; others must reject small buffers), no arithmetic may overflow"));
+
+    // Default, if this tree offers it for Page / PageId: the default page is a page like any other
+    {
+        #[allow(unused_imports)]
+        use crate::engine::{DefaultProbe, NoDefault, ViaDefault};
+        let mut st = Stats::new();
+        st.evals(2);
+        let r = catch(|| -> Result<Vec<&'static str>, String> {
+            let mut offered = vec![];
+            if let Some(id) = (&DefaultProbe::<PageId>(std::marker::PhantomData)).make() {
+                offered.push("PageId: Default");
+                let _ = id;
+            }
+            if let Some(p) = (&DefaultProbe::<Page<'static>>(std::marker::PhantomData)).make() {
+                offered.push("Page: Default");
+                let (w, h) = (p.width(), p.height());
+                let want = new_bytes(p.as_bytes().first().copied().unwrap_or(0), w, h);
+                if p.as_bytes() != &want[..] {
+                    return Err(format!("Page::default() reports {w}x{h} and exposes {} bytes {:?}; the layout prescribes {} bytes", p.as_bytes().len(), &p.as_bytes()[..p.as_bytes().len().min(16)], want.len()));
+                }
+                let _ = p.id();
+                match Page::from_bytes(w, h, p.as_bytes().to_vec()) {
+                    Ok(q) if q == p => {}
+                    other => return Err(format!("Page::default() is not the page rebuilt from its own bytes: {other:?}")),
+                }
+            }
+            Ok(offered)
+        });
+        match r {
+            Ok(Ok(offered)) => ctx.part_done("api-probes", true, json!({"probed": ["Page: Default", "PageId: Default"], "offered_by_this_tree": offered})),
+            Ok(Err(m)) => {
+                ctx.fail("api-probes", json!({"w": 0, "h": 0, "id": 0}), m);
+            }
+            Err(p) => {
+                ctx.fail("api-probes", json!({"w": 0, "h": 0, "id": 0}), format!("Page::default() or an accessor of the default page panicked: {p}"));
+            }
+        }
+        ctx.merge("api-probes", st);
+    }
 
     par_range(ctx, "giant-pages", GIANT_SIZES.len() as u64, |i, st| {
         let (w, h) = GIANT_SIZES[i as usize];
